@@ -1304,7 +1304,6 @@ func (w *World) loopCoversGroups(l *loopInfo) bool {
 	return false
 }
 
-
 // ruleInitChannel (E-INIT): WC.Init gives every initialised width configuration that asks for
 // synchronisation its own fresh unbuffered channel: on every path with the sync bit set the
 // channel field is overwritten with a new make(chan int), unconditionally. (Reusing an existing
@@ -1368,7 +1367,6 @@ func ruleInitChannel(w *World, r *Report, pfx string) {
 	}
 	r.Check(bad == "" && nP > 0 && sawSync && sawPlain, rule, "decor.(*WC).Init", w.pos(fn.Pos()), "fresh unbuffered channel exactly on the paths with the sync bit", orStr(bad, "branch missing"))
 }
-
 
 // isWholeHeap: v is the heap manager's bar list as a whole: a value of the heap's slice type, or a
 // helper's parameter to which every caller hands such a value (possibly converted to []*Bar).
